@@ -197,6 +197,32 @@ theorem factor_congr {sc : List (Option K)} {a b : List ℤ} (h : DimEq a b) :
     | none => rfl
     | some g => rw [(key g).2 hb] at ha; cases ha
 
+/-! ## affine (offset) units -/
+
+/-- `from_reference ∘ to_reference = id` (needs a non-zero conversion factor) -/
+theorem AffUnit.fromBase_toBase (u : AffUnit K) (hc : u.conv ≠ 0) (m : K) :
+    u.fromBase (u.toBase m) = m := by
+  simp only [AffUnit.fromBase, AffUnit.toBase, add_sub_cancel_right]
+  exact mul_div_cancel_right₀ m hc
+
+/-- `to_reference ∘ from_reference = id` (needs a non-zero conversion factor) -/
+theorem AffUnit.toBase_fromBase (u : AffUnit K) (hc : u.conv ≠ 0) (b : K) :
+    u.toBase (u.fromBase b) = b := by
+  simp only [AffUnit.fromBase, AffUnit.toBase, div_mul_cancel₀ _ hc, sub_add_cancel]
+
+/-- the base-unit value is the only thing `to_reference` loses nothing of: it is injective -/
+theorem AffUnit.toBase_injective (u : AffUnit K) (hc : u.conv ≠ 0) {m m' : K}
+    (h : u.toBase m = u.toBase m') : m = m' := by
+  rw [← u.fromBase_toBase hc m, h, u.fromBase_toBase hc]
+
+theorem nondimAff_eq_some_iff (sc : List (Option K)) (u : AffUnit K) (m v : K) :
+    nondimAff sc u m = some v ↔ ∃ f, factor sc u.dim = some f ∧ u.toBase m / f = v := by
+  simp [nondimAff, Option.map_eq_some_iff]
+
+theorem dimensionalizeAff_eq_some_iff (sc : List (Option K)) (u : AffUnit K) (v q : K) :
+    dimensionalizeAff sc u v = some q ↔ ∃ f, factor sc u.dim = some f ∧ u.fromBase (v * f) = q := by
+  simp [dimensionalizeAff, Option.map_eq_some_iff]
+
 end Field
 
 /-! ## rounding of rationals -/
